@@ -60,7 +60,7 @@ def extra(ctx):
                 targets = steps if (gate.startswith('plugin.') or gate.startswith('ev:S') or gate in ('wf.handler.beforeLock', 'wf.failure.beforeLock', 'x.deploy.run')) else ['']
                 for st in targets[:1] if ctx.quick else targets:
                     for nth in nths:
-                        sch = {'stalls': [{'point': gate, 'step': st, 'nth': nth, 'ms': rng.choice([80, 120])}]}
+                        sch = {'stalls': [{'point': gate, 'step': st, 'nth': nth, 'ms': rng.choice([120, 200])}]}
                         items.append({'wf': wf, 'oc': oc, 'script': script, 'input': inp, 'schedule': sch, 'extra': {'timeout_ms': 15000},
                                       'stall': '%s@%s#%d' % (gate, st, nth)})
         # a loop step that gets its items after it entered its execute stage, delayed at its own synchronisation points
@@ -69,7 +69,7 @@ def extra(ctx):
             for nth in ([1] if ctx.quick else [1, 2, 3]):
                 it = check_c13.loop_item(rng, 2, 2, ['success', 'success'], delays=[2, 2], after_ms=40)
                 it.pop('expect_items', None)
-                it['schedule'] = {'stalls': [{'point': gate, 'step': 'loop', 'nth': nth, 'ms': rng.choice([80, 120])}]}
+                it['schedule'] = {'stalls': [{'point': gate, 'step': 'loop', 'nth': nth, 'ms': rng.choice([120, 200])}]}
                 it['stall'] = '%s@loop#%d' % (gate, nth)
                 it['want'] = ['success']
                 items.append(it)
